@@ -4,7 +4,7 @@ COMMON_TRUST = [
     "correspondence harness (harness/, Rust) and the Lean driver's line protocol",
     "rustc dev-profile semantics of integer overflow and indexing",
 ]
-CODEC_RULE = "every message type x decoding parameter (Prio3 Count/Sum/Histogram/SumVec with 2-5 aggregators, Poplar1 with several bit lengths incl. 0, Prio2, ping-pong, primitives): honest encodings from real protocol runs, truncations, extensions, single-byte mutations, every alphabet value in first/last byte, all strings of length <= 2-3 over {00,01,7f,80,fe,ff}, header extremes (level 0xFFFF, counts 2^32-1, unknown tags), random strings; value-level round trips of Prio3 public share, input shares, verifier states / shares / messages (decode(encode(x)) == x, and verify_next on the decoded state gives the same result) for 1, 2 and 3 proofs; decoder roles 255, 256, 257, 256+n, 2^32, usize::MAX for Prio3 input shares and verify states; non-trivial = every case (each is a decode of a distinct byte string);"
+CODEC_RULE = "every message type x decoding parameter (Prio3 Count/Sum/Histogram/SumVec with 2-5 aggregators, Poplar1 with several bit lengths incl. 0, Prio2, ping-pong, primitives): honest encodings from real protocol runs, truncations, extensions, single-byte mutations, every alphabet value in first/last byte, all strings of length <= 2-3 over {00,01,7f,80,fe,ff}, header extremes (level 0xFFFF, counts 2^32-1, unknown tags), random strings; value-level round trips of Prio3 public share, input shares, verifier states / shares / messages (decode(encode(x)) == x, and verify_next on the decoded state gives the same result) for 1, 2 and 3 proofs; decoder roles 255, 256, 257, 256+n, 2^32, usize::MAX for Prio3 input shares and verify states; encode_u8/u16/u32_items appending to buffers that already hold 0, 1, 3, 200, 300 bytes (C07); non-trivial = every case (each is a decode of a distinct byte string);"
 POP = "Poplar1 over a recording XOF and the IDPF PRG recorder (the model recomputes every step from the two tables): "
 PROPS = {
     "C15": {
@@ -27,7 +27,7 @@ PROPS = {
     },
     "C19": {
         "modules": ["PrioProofs.Props.C19", "PrioProofs.Props.C19Linear", "PrioProofs.Props.Deployed2"],
-        "rule": "input lengths {1,2,3,4,7,8,15,16,33,100} (thorough 15 lengths up to 1000): all-zero, all-one and random 0/1 vectors, each also with one entry replaced by 2, p-1, 3 or a random value; per report: reconstructed client proof vs the model's construct_proof, leader share, both verification messages at the derived point and at 0, 1, two interpolation nodes and a random point, the decision, the evaluation point from the HMAC/AES stream, streams with planted out-of-range / node / identity draws, alterations (+1, -1, random) of the first/last data element, f0, g0, h0, first/last packed element (thorough: 6 more positions), wrong-length shares; corpus of nonces whose first two query draws are 2^20-th roots of unity (harness search-c19), replayed at dimension 2^19-1; non-trivial = all;",
+        "rule": "input lengths {1,2,3,4,7,8,15,16,33,100} (thorough 15 lengths up to 1000): all-zero, all-one and random 0/1 vectors, each also with one entry replaced by 2, p-1, 3 or a random value; per report: reconstructed client proof vs the model's construct_proof, leader share, both verification messages at the derived point and at 0, 1, two interpolation nodes and a random point, the decision, the evaluation point from the HMAC/AES stream, streams with planted out-of-range / node / identity draws, alterations (+1, -1, random) of the first/last data element, f0, g0, h0, first/last packed element (thorough: 6 more positions), wrong-length shares; corpus of nonces whose first two query draws are 2^20-th roots of unity (harness search-c19), replayed at dimension 2^19-1; an honest 0/1 report at dimension 2^19-1 (thorough: also 2^18) through the real client, both aggregators, aggregation and unshard; non-trivial = all;",
         "trusted": COMMON_TRUST + ["HMAC-SHA256 and AES-128-CTR (hmac, sha2, aes, ctr crates): the key stream is a parameter of the model and is handed to it by the harness"],
         "assumptions": ["soundness up to 2n/p is sampled by the oracle, not expressed as a probability", "the theorems take a field context satisfying CtxOk (root chain, half, canonical ofNat, 2 != 0); that the deployed contexts satisfy it is C10's table_roots / C09's constants"],
     },
@@ -39,7 +39,7 @@ PROPS = {
     },
     "C16": {
         "modules": ["PrioProofs.Props.C16", "PrioProofs.Props.C16Poplar"],
-        "rule": "constructors of Sum, Average, Histogram, MultihotCountVec, SumVec, L1BoundSum over Field64 and Field128 on the argument lattice {0,1,2,3,8,1000,2^32-2,2^32-1,2^32,2^63-1,2^63,usize::MAX-1,usize::MAX} (thorough: 26 values incl. random ones; full cube for the 3-parameter constructors) x integer bounds {0,1,2,3,255,256,p-2,p-1,p,p+1,MAX}; accepted small instances must prove and verify their extreme measurements; encode_measurement on in-range, boundary, out-of-range and wrong-length measurements; Prio3::new on (aggregators, proofs) incl. 0, 254, 255; Prio2::new on 24 (thorough 64) lengths up to usize::MAX; Prio3 verify_init / verifier_shares_to_message / verify_next on hand-built leader shares (measurement or proofs empty, short, long, one proof of many), missing or unexpected blinds and parts, shares, states and messages of an instance with the opposite joint-randomness use, aggregator ids up to usize::MAX, share counts 0..512+n incl. 256+n; thorough: instances beyond the transform limit (600000 buckets, chunk 1) through prove and verify_init; Prio2, Poplar1 (zero bits, wrong heights, levels beyond the tree, depth 40000) and DP constructors by oracle; Prio2::new accepts exactly the dimensions with 2*next_power_of_two(n+1) <= 2^20 (oracle); non-trivial = all;",
+        "rule": "constructors of Sum, Average, Histogram, MultihotCountVec, SumVec, L1BoundSum over Field64 and Field128 on the argument lattice {0,1,2,3,8,1000,2^32-2,2^32-1,2^32,2^63-1,2^63,usize::MAX-1,usize::MAX} (thorough: 26 values incl. random ones; full cube for the 3-parameter constructors) x integer bounds {0,1,2,3,255,256,p-2,p-1,p,p+1,MAX}; accepted small instances must prove and verify their extreme measurements; encode_measurement on in-range, boundary, out-of-range and wrong-length measurements; Prio3::new on (aggregators, proofs) incl. 0, 254, 255; Prio2::new on 24 (thorough 64) lengths up to usize::MAX; Prio3 verify_init / verifier_shares_to_message / verify_next on hand-built leader shares (measurement or proofs empty, short, long, one proof of many), missing or unexpected blinds and parts, shares, states and messages of an instance with the opposite joint-randomness use, aggregator ids up to usize::MAX, share counts 0..512+n incl. 256+n; thorough: instances beyond the transform limit (600000 buckets, chunk 1) through prove and verify_init; Prio2, Poplar1 (zero bits, wrong heights, levels beyond the tree, depth 40000) and DP constructors by oracle; Prio2::new accepts exactly the dimensions with 2*next_power_of_two(n+1) <= 2^20 (oracle); gadgets called directly (Mul, PolyEval, ParallelSum with 2 and with 0 chunks): eval with 0..arity+2 inputs, eval_poly with missing / extra wires, wires of different lengths, output buffers of the wrong length; Idpf::gen with too few / too many inner values and an empty input; non-trivial = all;",
         "trusted": COMMON_TRUST + ["XOF expansion terminating and FLP query not panicking are hypotheses of the Prio3 no-panic theorems (decide is proved panic-free; C05/C11 cover query and the XOF by correspondence)"],
         "assumptions": ["allocation-proportional operations are exercised only below a memory budget (instances up to 2048 inputs, Poplar1 up to 40000 bits)", "Poplar1/Prio2 protocol operations and DP constructors: oracle only"],
     },
@@ -124,7 +124,7 @@ PROPS = {
     },
     "C09": {
         "modules": ["PrioProofs.Props.C09", "PrioProofs.Props.C09Inv"],
-        "rule": "operand lattice (0,1,2,3,p-3..p-1,(p±1)/2,2^k,2^k±1,limb masks,R mod p) x itself, random and low-weight operands, every operand pair of the 8-bit instantiation; Field255 (oracle only): arithmetic, byte and u64 conversions on a lattice around 2^64, 2^128, 2^192, p and random values, non-canonical encodings (top bit, >= p) through both byte conversions; non-trivial = all (every case exercises the limb code);",
+        "rule": "operand lattice (0,1,2,3,p-3..p-1,(p±1)/2,2^k,2^k±1,limb masks,R mod p) x itself, random and low-weight operands, every operand pair of the 8-bit instantiation; Field255 (oracle only): arithmetic, byte and u64 conversions on a lattice around 2^64, 2^128, 2^192, p and random values, non-canonical encodings (top bit, >= p) through both byte conversions; root(l) for l = 0..70: a root of exact order 2^l for l <= 20 and None beyond, never a panic; non-trivial = all (every case exercises the limb code);",
         "trusted": COMMON_TRUST + ["Field255 limb code (fiat-crypto) is outside this check"],
         "assumptions": ["the hook instantiations FP8/FP16S run the same generic code as FP32/FP64/FP128 (they are produced by the same macros)"],
     },
